@@ -60,7 +60,7 @@ class Worker:
                 return ("DEAD", {"rc": self.p.returncode, "stderr": err.decode(errors="replace")[-2000:]})
             self.buf += chunk
         line, self.buf = self.buf.split(b"\n", 1)
-        return json.loads(line)
+        return json.loads(line.decode("utf-8", errors="replace"))
 
     def kill(self):
         try:
